@@ -18,10 +18,12 @@ def plan(tier, seed):
         for wf in ('wavelet', 'tuple4'):
             gs.append(Group('SWTForward[J<=%d,mode=%s,%s]' % (JMAX, mode, wf), G.g_swt_module, (JMAX, mode, wf), level='bounded-in-J',
                             functions=[(T2, 'SWTForward.__init__'), (T2, 'SWTForward.forward')],
-                            replay=rp('swt_forward', mode=mode, minJ=3)))
+                            replay=rp('swt_forward', mode=mode, minJ=JMAX)))
     gs.append(Group('canary:wrong-dilation', G.g_atrous1d, (3, 2), {'canary': True}, canary=True))
     jobs = [{'fn': 'swt_forward', 'cfg': {'mode': m}, 'grid': {'J': [1, 2, 3], 'Lc2': [1, 2, 4] + ([7] if dense else []), 'mh': [1, 3], 'mw': [2]}}
             for m in (None, 'periodic')]
+    # deeper transforms (dilation 8, 16): small sizes, one wavelet
+    jobs += [{'fn': 'swt_forward', 'cfg': {'mode': None, 'minJ': jj}, 'grid': {'Lc2': [2], 'mh': [1], 'mw': [1, 2]}} for jj in ((4, 5) if not dense else (4, 5, 6))]
     return {
         'groups': gs,
         'lean_lemmas': ['equivariant_comp', 'equivariant_iter'],
